@@ -478,10 +478,15 @@ PROPS["C04"] = dict(
              "floats: c04_value takes the hypothesis FloatsRoundTrip cfg ext v (for every Float in v, parsing the text ryu prints gives that "
              "Float back); it is discharged by C07 (float_roundtrip) / C08 (short literals), not here; c04_value_nofloat and c04_value_ap "
              "need no such hypothesis",
-             "wf_of_parse_partial: every value returned by the parser satisfies WFValue — proved for byte sources (from_slice/from_reader) "
-             "under the hypothesis that the configured conversion returns finite floats only (C08's finiteness clause); for &str input the "
-             "UTF-8 clause needs 'decoding valid UTF-8 text yields valid UTF-8 strings', not proved"],
-    technique="Lean 4 theorems obtained by composing C03 (serializer output = one RFC 8259 value with syntax tree cstOf(image)) with C01 "
+             "c04_wf_of_parse_partial: every value returned by the parser satisfies WFValue — proved for byte sources (from_slice/"
+             "from_reader) under the hypothesis that the floats of the returned value are finite (c04_wf_of_parse_finite: or that the "
+             "configured conversion returns finite floats only — C07/C08's finiteness clause, a statement about Spec.Ieee rounding not "
+             "proved here); unconditional under arbitrary_precision (c04_wf_of_parse_ap); for &str input the UTF-8 clause needs 'decoding "
+             "valid UTF-8 text yields valid UTF-8 strings', not proved",
+             "c04_reparse_partial (from_slice(to_vec(from_slice(bs))) = from_slice(bs)) inherits both float hypotheses"],
+    technique="Lean 4 theorems obtained by composing the Value fragment of C03 (serializer output = one RFC 8259 value with syntax tree "
+              "cstOf(image); re-proved layout-independently: the extracted formatter literals need only be their structural character plus "
+              "JSON whitespace, so a harmless change of the pretty layout alarms C03 but not C04) with C01 "
               "completeness (derivable text meeting the side conditions is accepted with value canonM) and a structural induction showing "
               "canonM(cstOf(image v)) = v for every well-formed Value; differential run of the composed models against the crate's own "
               "round trips; typed data by differential round trips of a zoo of derived types",
